@@ -21,13 +21,14 @@ def clear (p : Program) : Program :=
 
 /-- `Program::link` -/
 def linkProg (p : Program) : Program :=
+  let pushEnd (p : Program) : Program :=
+    let (l, r) := p.link.push .end
+    match r with
+    | .ok () => { p with link := l }
+    | .error e => { p with link := l, errors := p.errors ++ [e] }
   let p := match p.link.ops.back? with
-    | some .end => p
-    | _ =>
-      let (l, r) := p.link.push .end
-      match r with
-      | .ok () => { p with link := l }
-      | .error e => { p with link := l, errors := p.errors ++ [e] }
+    | some .end => if p.link.hasLineAtEnd then pushEnd p else p
+    | _ => pushEnd p
   let (l, linkErrs) := p.link.link
   let p := { p with link := l }
   let p := if p.errors.isEmpty then { p with errors := linkErrs } else p
